@@ -26,11 +26,12 @@ class Scenario:
     def __init__(self, source, signals=(), mode="run", layout=None, default_answer=None, answers=None,
                  fail_at=(), layout_at=None, override_write=True, max_rows=2000, show_vars=False, echo=False,
                  load=None, repeat_parse=1, render=False, stop_on_err=True, note="", expect=None, abandon=None, pre_layouts=None,
-                 pre_digs=None, set_bits=None):
+                 pre_digs=None, set_bits=None, step=0):
         self.abandon = abandon
         self.pre_layouts = pre_layouts or []
         self.pre_digs = pre_digs or []       # [(document text, load selector or None)]
         self.set_bits = set_bits or []       # [(signal name, new width)]
+        self.step = step                     # > 0: items are pulled with Iterator::nth(step)
         self.expect = expect or {}
         self.source = source
         self.signals = list(signals)   # (kind, name, bits, default) kind in in/out/bidir; default int|'Z'|None
@@ -83,6 +84,8 @@ class Scenario:
             out.append("PRE_LAYOUT " + " ".join(_hex(x) for x in lay))
         for doc, sel in getattr(self, "pre_digs", []):
             out.append("PRE_DIG %s%s" % (_hex(doc), (" " + sel) if sel else ""))
+        if getattr(self, "step", 0):
+            out.append("STEP %d" % self.step)
         for name, bits in getattr(self, "set_bits", []):
             out.append("SET_BITS %s %d" % (_hex(name), bits))
         return "\n".join(out) + "\n"
